@@ -80,6 +80,10 @@ class AstToODataVisitor(visitor.NodeVisitor):
 
     def visit_List(self, node: ast.List) -> str:
         """:meta private:"""
+        if len(node.val) == 1:
+            # A single item list needs a trailing comma, otherwise it is read
+            # back as a parenthesized expression:
+            return "(" + self.visit(node.val[0]) + ",)"
         return "(" + ", ".join(self.visit(v) for v in node.val) + ")"
 
     def visit_Add(self, node: ast.Add) -> str:
